@@ -155,6 +155,7 @@ func sources(t *Node, acc *[][]int) {
 // build calls the real constructors, children first; x is the argument of the innermost
 // enclosing join function (0 at top level)
 func build(t *Node, x int) seq.Seq[int] {
+	work++
 	switch t.O {
 	case "from":
 		return seq.From(t.V)
@@ -181,14 +182,23 @@ func build(t *Node, x int) seq.Seq[int] {
 		r := build(t.R, x)
 		return seq.Plus(l, r)
 	case "join":
-		return seq.Join(build(t.S, x), joinc(t.J))
+		f := joinc(t.J)
+		return seq.Join(build(t.S, x), func(a int) seq.Seq[int] { work++; return f(a) })
 	case "joine":
 		return seq.Join(build(t.S, x), func(a int) seq.Seq[int] { return build(t.B, a) })
 	}
 	panic("op " + t.O)
 }
 
-const limit = 200000 // elements after which a run is declared non-terminating
+// limit: elements after which a run is declared non-terminating.  Random trees are cut off much earlier and
+// then skipped (their evaluation inside Coq would be too deep): result longer than maxObs elements, or more
+// than maxWork constructor calls (every call of a join function builds at least one iterator).
+var limit = 200000
+
+const maxObs = 1500
+const maxWork = 4000
+
+var work int // elements after which a run is declared non-terminating
 
 type codeErr int
 
@@ -208,11 +218,15 @@ func again(it seq.Seq[int]) (o [2]int) {
 
 func run(t *Node, m Mode) (c Case) {
 	prepare(t)
+	work = 0
 	c.Expr, c.Mode, c.Obs, c.After, c.Post = t, m, []int{}, [][]int{}, [][2]int{}
 	defer func() {
 		if r := recover(); r != nil {
 			c.Panic = true
 			c.Why = fmt.Sprint(r)
+			if len(c.Obs) > 200 {
+				c.Obs = c.Obs[:200]
+			}
 		}
 		c.After = [][]int{}
 		sources(t, &c.After)
@@ -444,6 +458,9 @@ func main() {
 	emit := func(t *Node, m Mode, tag string) int {
 		c := run(clone(t), m)
 		c.Gen = tag
+		if tag == "rnd" && (c.Why == "no end" || len(c.Obs) > maxObs || work > maxWork) {
+			return -1
+		}
 		if err := enc.Encode(c); err != nil {
 			fmt.Fprintln(os.Stderr, err)
 			os.Exit(2)
@@ -528,10 +545,14 @@ func main() {
 		g.maxLen = 6
 		n, maxd = 60000, 7
 	}
+	limit = maxObs + 1
 	for i := 0; i < n; i++ {
 		d := 3 + rng.Intn(maxd-2)
 		t := g.tree(d, false)
 		k := emit(t, drain, "rnd")
+		if k < 0 {
+			continue
+		}
 		if i%2 == 0 {
 			emit(t, g.mode(k), "rnd")
 		}
